@@ -8,13 +8,16 @@
 
 #define MAXT 3
 #define MAXEV 70000
-struct ev { int slot, seq, after_fini; };
+struct ev { int slot, seq, after_fini, by_app; };
+static pthread_t app_thread;
 static struct ev EV[MAXEV]; static int nev;
 static pthread_mutex_t evlock = PTHREAD_MUTEX_INITIALIZER;
 static int fini_returned;      /* atomic */
 static int slow_slot = -1, slow_us;
 static int logger_calls_after_fini;
 
+static int burn_on; static long n_loaded_cases;
+static void *burner(void *a) { (void)a; volatile unsigned long x = 0; while (__atomic_load_n(&burn_on, __ATOMIC_ACQUIRE)) { for (int i = 0; i < 20000; i++) x += (unsigned long)i; } return NULL; }
 static void logger(int32_t t, struct qb_log_callsite *cs, struct timespec *ts, const char *msg)
 {
 	(void)cs; (void)ts;
@@ -22,7 +25,7 @@ static void logger(int32_t t, struct qb_log_callsite *cs, struct timespec *ts, c
 	const char *p = strchr(msg, '#');
 	if (p) seq = atoi(p + 1);
 	pthread_mutex_lock(&evlock);
-	if (nev < MAXEV) { EV[nev].slot = t; EV[nev].seq = seq; EV[nev].after_fini = __atomic_load_n(&fini_returned, __ATOMIC_ACQUIRE); nev++; }
+	if (nev < MAXEV) { EV[nev].slot = t; EV[nev].seq = seq; EV[nev].after_fini = __atomic_load_n(&fini_returned, __ATOMIC_ACQUIRE); EV[nev].by_app = pthread_equal(pthread_self(), app_thread); nev++; }
 	pthread_mutex_unlock(&evlock);
 	if (t == slow_slot && slow_us) usleep((useconds_t)slow_us);
 }
@@ -54,9 +57,20 @@ static void run_case(long kase)
 {
 	vprng_t r; vp_seed(&r, vp.seed, (uint64_t)kase);
 	int rounds = vp_chance(&r, 1, 3) ? 2 : 1;
+	/* --mode finirace: very many short init..fini rounds of 1-4 messages on a loaded machine: qb_log_fini() arrives while
+	 * the logging thread is being woken for the last record */
+	int finirace = !strcmp(vp_arg("--mode", "mixed"), "finirace");
+	if (finirace) rounds = 120;
 	uint64_t h = (uint64_t)rounds;
 	char trace[400]; size_t tn = 0; trace[0] = 0;
 #define TR(...) do { if (tn < sizeof trace - 40) tn += (size_t)snprintf(trace + tn, 40, __VA_ARGS__); } while (0)
+	app_thread = pthread_self();
+	/* a loaded machine: in a third of the cases competing threads keep the cores busy, so that the logging thread is
+	 * preempted at arbitrary points (between being woken and taking its lock, for instance) */
+	int burners = (finirace || vp_chance(&r, 1, 3)) ? 6 : 0; pthread_t bt[8];
+	__atomic_store_n(&burn_on, 1, __ATOMIC_RELEASE);
+	for (int b = 0; b < burners; b++) pthread_create(&bt[b], NULL, burner, NULL);
+	if (burners) n_loaded_cases++;
 	for (int rd = 0; rd < rounds; rd++) {
 		n_rounds++; if (rd) n_reinit++;
 		pthread_mutex_lock(&evlock); nev = 0; pthread_mutex_unlock(&evlock);
@@ -69,6 +83,7 @@ static void run_case(long kase)
 		int N = vp_chance(&r, 1, 4) ? 1500 + (int)vp_u(&r, 1500) : 5 + (int)vp_u(&r, 300);
 		int big = vp_chance(&r, 1, 3);
 		slow_us = vp_chance(&r, 1, 3) ? 20 + (int)vp_u(&r, 300) : 0;
+		if (finirace) { N = 1 + (int)vp_u(&r, 4); hazard = 0; start_thread = 1; big = 0; slow_us = 0; }
 		if (big && slow_us && N > 1000) n_backlog_cases++;
 		vp_desc("round=%d nt=%d order=%d start=%d hazard=%d N=%d big=%d slow=%d", rd, nt, order, start_thread, hazard, N, big, slow_us);
 		TR("[r%d nt%d o%d s%d hz%d N%d b%d sl%d] ", rd, nt, order, start_thread, hazard, N, big, slow_us);
@@ -103,6 +118,7 @@ static void run_case(long kase)
 		 * control operations and init/fini are exercised */
 		if (!start_thread && any_threaded) N = 0;
 		vp_desc("round=%d producing N=%d (nt=%d order=%d start=%d hazard=%d)", rd, N, nt, order, start_thread, hazard);
+		char ctl_note[300] = ""; size_t cno = 0; int hz_slot = -1;
 		for (int s = 0; s < N; s++) {
 			int padlen = big ? 1000 + (int)vp_u(&r, 3000) : (int)vp_u(&r, 40);
 			qb_log_from_external_source("producer", "prod.c", "#%d %.*s", LOG_INFO, 77, 0, s, padlen, bigpad);
@@ -110,7 +126,9 @@ static void run_case(long kase)
 			if (vp_chance(&r, 1, 40)) {
 				/* benign control operations while the logging thread is busy */
 				int i = (int)vp_u(&r, (uint32_t)nt); n_ctl_ops++;
-				switch (vp_u(&r, 5)) {
+				uint32_t which = vp_u(&r, 5);
+				if (cno + 24 < sizeof ctl_note) cno += (size_t)snprintf(ctl_note + cno, sizeof ctl_note - cno, "op%u@#%d/slot%d ", which, s, slot[i]);
+				switch (which) {
 				case 0: qb_log_format_set(slot[i], vp_chance(&r, 1, 2) ? "%b" : "[%p] %b"); break;
 				case 1: qb_log_ctl(slot[i], QB_LOG_CONF_ELLIPSIS, (int)vp_u(&r, 2)); break;
 				case 2: qb_log_ctl(slot[i], QB_LOG_CONF_MAX_LINE_LEN, 4096); break;
@@ -120,6 +138,7 @@ static void run_case(long kase)
 			}
 			if (hazard && s == N / 2) {
 				int i = 0; for (int k = 0; k < nt; k++) if (threaded[k]) { i = k; break; }
+				hz_slot = slot[i];
 				vp_desc("round=%d hazard=%d on slot %d at message %d", rd, hazard, slot[i], s);
 				if (hazard == 1) { qb_log_ctl(slot[i], QB_LOG_CONF_ENABLED, QB_FALSE); qb_log_ctl(slot[i], QB_LOG_CONF_ENABLED, QB_TRUE); }
 				else if (hazard == 2) { qb_log_custom_close(slot[i]); }
@@ -139,23 +158,35 @@ static void run_case(long kase)
 		pthread_mutex_lock(&evlock);
 		int total = nev;
 		for (int i = 0; i < nt; i++) {
-			int last = -1, cnt = 0, dup = 0, ooo = 0, late = 0;
+			int last = -1, cnt = 0, dup = 0, ooo = 0, late = 0; char ooo_note[160] = ""; int last_by_app = 0, napp = 0;
 			for (int e = 0; e < total; e++) if (EV[e].slot == slot[i]) {
 				if (EV[e].after_fini) late++;
-				if (EV[e].seq == last) dup++; else if (EV[e].seq < last) ooo++;
-				last = EV[e].seq; cnt++;
+				/* a target switched back to direct mode mid-stream (hazard 3) is no longer "in threaded mode": what was queued
+				 * before may come after what is written directly; each of the two writers must still be in order by itself */
+				if (hazard == 3 && threaded[i] && slot[i] == hz_slot) {
+					static int last_of[2]; if (cnt == 0) last_of[0] = last_of[1] = -1;
+					int b = EV[e].by_app ? 1 : 0;
+					if (EV[e].seq == last_of[b]) dup++; else if (EV[e].seq < last_of[b]) { if (!ooo) snprintf(ooo_note, sizeof ooo_note, "#%d after #%d, both by the %s", EV[e].seq, last_of[b], b ? "application thread" : "logging thread"); ooo++; }
+					last_of[b] = EV[e].seq; last = EV[e].seq; last_by_app = EV[e].by_app; napp += EV[e].by_app; cnt++;
+					continue;
+				}
+				if (EV[e].seq == last) dup++; else if (EV[e].seq < last) { if (!ooo) snprintf(ooo_note, sizeof ooo_note, "#%d (%s) delivered after #%d (%s), message %d of %d for the slot, %d so far by the application thread, hazard at #%d", EV[e].seq, EV[e].by_app ? "application thread" : "logging thread", last, last_by_app ? "application thread" : "logging thread", cnt, N, napp, hazard ? N / 2 : -1); ooo++; }
+				last = EV[e].seq; last_by_app = EV[e].by_app; napp += EV[e].by_app; cnt++;
 			}
 			n_delivered += cnt;
 			char k[160];
 			const char *kind = threaded[i] ? "threaded" : "direct";
 			if (late) { snprintf(k, sizeof k, "logt:delivery-after-fini-returned:%s", kind); vp_violation(k, "%d logger calls after qb_log_fini returned", late); }
 			if (dup) { snprintf(k, sizeof k, "logt:duplicate-delivery:%s", kind); vp_violation(k, "slot %d: %d duplicates", slot[i], dup); }
-			if (ooo) { snprintf(k, sizeof k, "logt:out-of-order-delivery:%s", kind); vp_violation(k, "slot %d: %d inversions", slot[i], ooo); }
+			if (ooo) { snprintf(k, sizeof k, "logt:out-of-order-delivery:%s", kind); vp_violation(k, "slot %d (%s): %d inversions; first: %s", slot[i], threaded[i] ? "threaded" : "direct", ooo, ooo_note); }
 			if (judged) {
 				long expect = threaded[i] ? (long)N - lost : (long)N;
 				if (cnt != expect) {
 					snprintf(k, sizeof k, "logt:%s:%s", cnt < expect ? "messages-missing-unaccounted" : "more-delivered-than-accounted", kind);
-					vp_violation(k, "slot %d: logged %d, delivered %d, reported lost %ld (%d reports); order=%d", slot[i], N, cnt, lost, nrep, order);
+					char miss[200] = ""; size_t mo = 0; static unsigned char seen[4096]; memset(seen, 0, sizeof seen);
+					for (int e = 0; e < total; e++) if (EV[e].slot == slot[i] && EV[e].seq >= 0 && EV[e].seq < 4096) seen[EV[e].seq] = 1;
+					for (int q = 0; q < N && q < 4096 && mo + 12 < sizeof miss; q++) if (!seen[q]) mo += (size_t)snprintf(miss + mo, sizeof miss - mo, "#%d ", q);
+					vp_violation(k, "slot %d: logged %d, delivered %d (%d by the application thread), reported lost %ld (%d reports); order=%d; missing: %s; control ops during the run: %s", slot[i], N, cnt, napp, lost, nrep, order, miss, ctl_note);
 				}
 			}
 		}
@@ -164,6 +195,8 @@ static void run_case(long kase)
 		if (!any_threaded && lost) vp_violation("logt:lost-report-without-threaded-target", "%ld", lost);
 		h = vp_hash_u64(h, (uint64_t)(nt * 1000 + order * 100 + start_thread * 10 + hazard) ^ ((uint64_t)(N > 1000) << 20) ^ ((uint64_t)big << 21) ^ ((uint64_t)(slow_us > 0) << 22) ^ ((uint64_t)(lost > 0) << 23));
 	}
+	__atomic_store_n(&burn_on, 0, __ATOMIC_RELEASE);
+	for (int b = 0; b < burners; b++) pthread_join(bt[b], NULL);
 	vp_distinct(h);
 	if (kase % 13 == 0) vp_sample("case=%ld %s", kase, trace);
 }
@@ -182,6 +215,7 @@ int main(int argc, char **argv)
 	vp_count("messages_logged", n_msgs); vp_count("logger_invocations", n_delivered); vp_count("drops_reported_and_matched", n_dropped_accounted);
 	vp_count("init_fini_rounds", n_rounds); vp_count("reinit_rounds", n_reinit); vp_count("control_ops_while_busy", n_ctl_ops);
 	vp_count("backlog_pressure_rounds", n_backlog_cases); vp_count("control_before_thread_start", n_ctl_before_start);
+	vp_count("cases_run_on_a_loaded_machine", n_loaded_cases);
 	vp_finish();
 	return 0;
 }
